@@ -189,8 +189,8 @@ def c09(tier):
 def c11(tier):
     combos = [(3, 0), (3, 1)] if tier == "quick" else [(3, 0), (3, 1), (6, 1), (12, 0)]
     jobs = [Job("h_c11::content_addressed", c, dict(S2, digest_len=64), budget_s=3000, validate=30) for c in combos]
-    # the order in which commit collects change records from hash tables may be reversed at one point per path
-    jobs.append(Job("h_c11::content_addressed", (3, 0), dict(S2, digest_len=64, hash_order="two", nd_budget=1), budget_s=3000, validate=20, native_repeats=3))
+    # the order in which commit collects change records from hash tables may be reversed at one point per path (history up to the first meld)
+    jobs.append(Job("h_c11::content_addressed", (3, 0, 1), dict(S2, digest_len=64, hash_order="two", nd_budget=1), budget_s=3000, validate=20, native_repeats=3))
     jobs.append(Job("h_pack::pack_roundtrip", (1, 1), {"hash_order": "two"}, budget_s=3000, validate=20))
     # a block holding an update record whose digest equals its parent's (identical consecutive edit scripts), melded and relayed
     jobs.append(Job("h_c11::identical_scripts_meld", (), dict(S2, digest_len=64), budget_s=600, validate=2))
